@@ -32,7 +32,7 @@ type c13Case struct {
 	PubOK  bool
 	Meta   string // empty | some | poisoned
 	Router bool
-	CtxEnd bool // (stand-alone) the message's context ends while the handler runs: the poison decision does not depend on it
+	CtxEnd bool // the message's context ends while the handler runs: the poison decision does not depend on it
 }
 
 func c13Err(h string) error {
@@ -78,8 +78,8 @@ func runC13(c *Ctx) error {
 				for _, m := range []string{"empty", "some", "poisoned"} {
 					for _, r := range []bool{false, true} {
 						cases = append(cases, c13Case{h, f, p, m, r, false})
-						if !r && m == "some" {
-							cases = append(cases, c13Case{h, f, p, m, r, true})
+						if m == "some" || r && m == "empty" {
+							cases = append(cases, c13Case{h, f, p, m, r, true}) // (in a router too: the names still come from that delivery's context)
 						}
 					}
 				}
